@@ -305,3 +305,6 @@ def cases(seed, tier):
     # process in which the harness has already asked for every order's sequence)
     for n in range(0, 12):
         yield ["db", str(n)]
+
+# the same requests executed 8 at a time in concurrent goroutines (check: PARALLEL / harness: VERIF_PAR)
+PARALLEL = {"quick": {"par": 8, "max_cases": 1500}, "thorough": {"par": 8, "max_cases": 40000, "race": True}}
